@@ -34,6 +34,9 @@
  * special, since be mark it as already initialized, with no parent
  * and no constructor or destructor.
  */
+static parsec_construct_t parsec_object_t_no_construct[1] = { NULL };
+static parsec_destruct_t  parsec_object_t_no_destruct[1]  = { NULL };
+
 parsec_class_t parsec_object_t_class = {
     "parsec_object_t",    /* name */
     NULL,                 /* parent class */
@@ -41,8 +44,8 @@ parsec_class_t parsec_object_t_class = {
     NULL,                 /* destructor */
     1,                    /* initialized  -- this class is preinitialized */
     0,                    /* class hierarchy depth */
-    NULL,                 /* array of constructors */
-    NULL,                 /* array of destructors */
+    parsec_object_t_no_construct, /* array of constructors: empty, NULL terminated */
+    parsec_object_t_no_destruct,  /* array of destructors: empty, NULL terminated */
     sizeof(parsec_object_t) /* size of the opal object */
 };
 
